@@ -1,4 +1,4 @@
 SPECIFICATION Spec
-CONSTANTS HandOffBug = FALSE  SpuriousBudget = 1  defaultInitValue = 0
+CONSTANTS HandOffBug = FALSE  SpuriousBudget = 1  WithSelect = FALSE  SelPanicBug = FALSE  defaultInitValue = 0
 INVARIANTS MutexOwnerSane CapBound Emit
 CHECK_DEADLOCK FALSE
